@@ -158,7 +158,9 @@ func runMarshalEnc(t reflect.Type, v reflect.Value, enc int, k *MarshalCase) (ve
 			return ""
 		}
 	}
-	if d := model.DiffOpt(want, got, model.EqOpts{UnorderedStructs: binary || enc == 5 || enc == 7 || enc == 9}); d != "" {
+	// the order of a struct's fields is not part of the Ion value (nor of the property): a library that
+	// wrote promoted fields after the type's own would still denote the same value
+	if d := model.DiffOpt(want, got, model.EqOpts{UnorderedStructs: true}); d != "" {
 		return "the output does not denote the value's Ion image: " + d
 	}
 	// (2) Unmarshal returns an equal value (types that write themselves have no inverse)
